@@ -79,6 +79,7 @@ theorem fitCfg64 {n : Nat} (hn : n ≤ 2 ^ 22) : FitCfg cfg64 n 42 (dn64 n) wher
   grow := by
     intro cap K r h0 h
     rw [slack64] at h
+    show cap + 1 + 0 + r % cap ≤ 3 * K + 5
     have := Nat.mod_lt r h0
     omega
   bitmap_dense := by
@@ -137,6 +138,7 @@ theorem fitCfg32 {n : Nat} (hn : n ≤ 2 ^ 22) : FitCfg cfg32 n 10 (dn32 n) wher
   grow := by
     intro cap K r h0 h
     rw [slack32] at h
+    show cap + 1 + cap / 8 + r % cap ≤ 3 * K + 5
     have := Nat.mod_lt r h0
     omega
   bitmap_dense := by
